@@ -152,7 +152,7 @@ def run_rules(ctx, chk):
                                                                 'serves data without any of the documented guards'))
                     elif vn == 'Err':
                         n_err_sites += 1
-    chk.ob('C03.G3', 'exits:ok-or-err-only', n_ok_sites >= 2 and n_err_sites >= 1, r.body.where(0),
+    chk.ob('C03.G3', 'exits:ok-or-err-only', n_ok_sites >= 1 and n_err_sites >= 1, r.body.where(0),
            '%d Ok exit sites, %d Err exit sites (snapshot and the helpers it inlines)' % (n_ok_sites, n_err_sites), nontrivial=False)
     from .. import core as _core
     if not isinstance(ctx, _core.FixtureCtx) and not getattr(chk, '_nested', False):
